@@ -647,6 +647,18 @@ func (v *FnVerifier) checkEnsures(fr *Frame, st *State, res []Val, pos token.Pos
 	retNo := v.siteCount["return"]
 	rs := fr.fn.Signature.Results()
 	for k, en := range v.fc.Ensures {
+		if en.AfterLoop > 0 {
+			// only the returns reached through that loop (the names of its region are in scope there)
+			through := false
+			for _, li := range fr.loops {
+				if li.ordinal == en.AfterLoop-1 && li.header.Dominates(blk) {
+					through = true
+				}
+			}
+			if !through {
+				continue
+			}
+		}
 		env := fr.specEnv(st, nil)
 		for i := 0; i < rs.Len(); i++ {
 			env.resT = append(env.resT, rs.At(i).Type())
